@@ -534,7 +534,7 @@ impl Family for SpmcFamily {
       // every receiver but the first may leave early: a slow or departed receiver must never
       // block the sender for good
       let quota = if self.lifecycle && i > 0 && rng.chance(1, 3) { Some(rng.range(1, 6) as u16) } else { None };
-      let at_end = if self.lifecycle { *rng.pick(&[AtEnd::Drop, AtEnd::Drop, AtEnd::Close, AtEnd::CloseThenUse]) } else { AtEnd::Drop };
+      let at_end = if self.lifecycle { *rng.pick(&[AtEnd::Drop, AtEnd::Drop, AtEnd::Drop, AtEnd::Close, AtEnd::Close, AtEnd::CloseThenUse, AtEnd::CloseThenUse, AtEnd::CloseThenConvertUse, AtEnd::CloseThenCloneUse]) } else { AtEnd::Drop };
       consumers.push(Consumer { ops: cops, quota, at_end });
     }
     let total = ops.iter().map(|o| if let POp::Send { n, .. } = o { *n as u32 } else { 0 }).sum::<u32>();
@@ -792,6 +792,7 @@ pub fn evaluate(sc: &SpmcSc, run: &SpmcRun) -> Vec<Violation> {
       _ => {}
     }
   }
+  let born = super::oracle::born_of_closed(evs, false);
   for (h, seq) in &recvd {
     // expected start position
     let start = match parent.get(h) {
@@ -831,7 +832,8 @@ pub fn evaluate(sc: &SpmcSc, run: &SpmcRun) -> Vec<Violation> {
       let own_closed = super::oracle::handle_closed_before(evs, *h, false, u64::MAX) && false;
       let _ = own_closed;
       let closed_before_disc = super::oracle::handle_closed_before(evs, *h, false, *saw_disc.get(h).unwrap());
-      if !closed_before_disc && expect < sent.len() && vs.iter().all(|v| v.class != "gap_value_skipped" && v.class != "duplicate_or_reordered") {
+      // (a clone made from a closed handle says Disconnected about itself, not about the sender)
+      if !closed_before_disc && !born.contains(h) && expect < sent.len() && vs.iter().all(|v| v.class != "gap_value_skipped" && v.class != "duplicate_or_reordered") {
         let cancelled = cancelled_recv.get(h).copied().unwrap_or(false);
         vs.push(viol_named(
           fl,
@@ -852,7 +854,7 @@ pub fn evaluate(sc: &SpmcSc, run: &SpmcRun) -> Vec<Violation> {
       for h in &handles {
         // live throughout: created before the send returned, not closed/dropped before t
         let created_at = parent.get(h).map(|(_, s)| *s).unwrap_or(0);
-        if created_at >= *t || handle_gone_before(evs, *h, false, *t) {
+        if created_at >= *t || handle_gone_before(evs, *h, false, *t) || born.contains(h) {
           continue;
         }
         let start = match parent.get(h) {
